@@ -77,6 +77,8 @@ type vfFwdExec struct {
 	panicked  string
 	opened    bool
 	srcMD     metadata.MD
+	spawn     func(name string, f func())
+	changed   chan struct{}
 }
 
 func (e *vfFwdExec) violate(sig, detail string) {
@@ -87,7 +89,17 @@ func (e *vfFwdExec) violate(sig, detail string) {
 	}
 	e.viol = append(e.viol, vfViolation{"C06", sig, detail})
 }
-func (e *vfFwdExec) logf(f string, a ...any) { e.events = append(e.events, fmt.Sprintf(f, a...)) }
+func (e *vfFwdExec) logf(f string, a ...any) {
+	e.events = append(e.events, fmt.Sprintf(f, a...))
+	e.notify()
+}
+
+func (e *vfFwdExec) notify() {
+	if e.changed != nil {
+		close(e.changed)
+		e.changed = make(chan struct{})
+	}
+}
 
 func vfFwdResp(i int) *adminservice.StreamWorkflowReplicationMessagesResponse {
 	return &adminservice.StreamWorkflowReplicationMessagesResponse{Attributes: &adminservice.StreamWorkflowReplicationMessagesResponse_Messages{
@@ -123,6 +135,7 @@ func vfNewFwdExec(sc vfFwdScenario, openFail bool) *vfFwdExec {
 		cs.noAutoEOF = e.sc.SourceIgnoresHalfClose
 		e.srcMD = cs.md
 		e.opened = true
+		e.notify()
 		cs.onSend = func(m *adminservice.StreamWorkflowReplicationMessagesRequest) error {
 			if e.failSrc {
 				e.failSrc = false
@@ -149,16 +162,21 @@ func (e *vfFwdExec) start() {
 	observer := NewReplicationStreamObserver(log.NewNoopLogger())
 	srv := NewAdminServiceProxyServer("c06", e.client, e.client, AdminServiceOverrides{}, []string{"inbound"}, observer.ReportStreamValue,
 		scc, lcm, RoutingParameters{}, vfNoopLoggers(), nil, context.Background())
-	go func() {
+	start := e.spawn
+	if start == nil {
+		start = func(_ string, f func()) { go f() }
+	}
+	start("handler", func() {
 		defer func() {
 			if p := recover(); p != nil {
 				e.panicked = fmt.Sprint(p)
 			}
 			e.ini.returned = true
 			e.ini.cancel()
+			e.notify()
 		}()
 		e.ini.retErr = srv.StreamWorkflowReplicationMessages(e.ini)
-	}()
+	})
 }
 
 func (e *vfFwdExec) end(kind string) {
@@ -444,8 +462,13 @@ func TestVerifC06(t *testing.T) {
 		seen := map[[20]byte]bool{}
 		mk := func(p []string) string { b, _ := json.Marshal(vfFwdJob{Sc: sc, Path: p}); return string(b) }
 		handle := func(path []string, r vrt.JobResult) *node {
-			if r.Crashed || r.TimedOut {
-				res.Violate("end/process-crash-or-hang", fmt.Sprintf("mode %s path %v: crashed=%v timedOut=%v\n%s", mode, path, r.Crashed, r.TimedOut, r.Stderr), vfFwdJob{Sc: sc, Path: path})
+			if r.TimedOut {
+				// a wall-clock watchdog is never a verdict: coverage is reported as incomplete instead
+				harnessErrs = append(harnessErrs, fmt.Sprintf("worker watchdog expired on %v", path))
+				return nil
+			}
+			if r.Crashed {
+				res.Violate("end/process-crash", fmt.Sprintf("mode %s path %v: the worker process died\n%s", mode, path, r.Stderr), vfFwdJob{Sc: sc, Path: path})
 				return nil
 			}
 			var out vfFwdOut
